@@ -156,6 +156,11 @@ fn alpha(_cfg: &Cfg) -> Vec<Op> {
         c(Seq(vec![DecSet(vec![1049]), Text("alt".into()), lfs(4), DecRst(vec![1049])])),
         c(Seq(vec![Text("ab".into()), lfs(2), DecSet(vec![47])])),
     ];
+    // every chunking hands out the same stream: one feed_str per character
+    v.push(t("bcdefgh").kind(Kind::FeedSplit));
+    v.push(c(lfs(12)).kind(Kind::FeedSplit));
+    v.push(c(Seq(vec![Text("x".into()), Cr, Lf, Text("y".into()), Cr, Lf, Text("z".into()), Cr, Lf])).kind(Kind::FeedSplit));
+    v.push(c(Seq(vec![DecSet(vec![1049]), Text("alt".into()), lfs(4), DecRst(vec![1049])])).kind(Kind::FeedSplit));
     v.push(c(lfs(3)).kind(Kind::FeedChars));
     v.push(t("bcdefgh").kind(Kind::FeedChars));
     v.push(c(Seq(vec![DecSet(vec![1049]), lfs(4)])).kind(Kind::FeedChars));
